@@ -181,7 +181,7 @@ package jrpc2
 //@   requires wfServer(s) && held(s.mu) && t != nil
 //@   modifies t.ctx, map(s.used)
 //@   ensures[C17:inbound-in-ctx] t.ctx != nil && ctxValue(t.ctx, boxof(0, "jrpc2.inboundRequestKey")) == boxof(t.hreq, "*jrpc2.Request")
-//@   ensures[C07:reserved] id != "" ==> in(s.used, id) && lookup(s.used, id) == cancelOf(t.ctx) && lookup(s.used, id) != nil && !fired(lookup(s.used, id))
+//@   ensures[C07:reserved] id != "" ==> in(s.used, id) && lookup(s.used, id) == cancelOf(t.ctx) && lookup(s.used, id) != nil && !fired(lookup(s.used, id)) && allocated(lookup(s.used, id)) && isnew(lookup(s.used, id))
 //@   ensures[C07:others-kept] forall(k string, k != id ==> in(s.used, k) == old(in(s.used, k)) && lookup(s.used, k) == old(lookup(s.used, k)))
 //@   ensures[C07:no-id-no-reservation] id == "" ==> in(s.used, id) == old(in(s.used, id)) && lookup(s.used, id) == old(lookup(s.used, id))
 
@@ -214,12 +214,15 @@ package jrpc2
 // batchOK(b): a batch as produced by the reader: non-empty, no nil member.
 //@ pure batchOK(b Slice) Bool = len(b) >= 1 && forall(i int, 0 <= i && i < len(b) ==> b[i] != nil)
 
+//@ sentinel[*errors.errorString] errServerStopped errClientStopped ErrConnClosed ErrPushUnsupported
+//@ globalinv errEmptyMethod != nil && errNoSuchMethod != nil && errDuplicateID != nil && errInvalidRequest != nil && errEmptyBatch != nil && errInvalidParams != nil && errTaskNotExecuted != nil
 //@ globalinv rpcErrorsCount != nil && rpcRequestsCount != nil && bytesReadCount != nil && bytesWrittenCount != nil && rpcCallsPushed != nil && rpcNotificationsPushed != nil && serversActiveGauge != nil && serverMetrics != nil
 
 //@ monitor Server.mu owner s
-//@   guards s.err, s.work, s.ch, map(s.used), map(s.call), s.callID, qlen(fieldaddr(s, inq))
+//@   guards s.err, s.ch, map(s.used), map(s.call), s.callID, qlen(fieldaddr(s, inq))
 //@   invariant[C08:M1] s.ch != nil ==> s.work != nil && !chanclosed(s.work)
-//@   invariant[C07:M4] forall(k string, in(s.used, k) ==> lookup(s.used, k) != nil && k != "")
+//@   invariant[C08:M2] s.ch == nil && s.work != nil ==> s.err != nil
+//@   invariant[C07:M4] forall(k string, in(s.used, k) ==> lookup(s.used, k) != nil && k != "" && allocated(lookup(s.used, k)))
 //@   invariant[C09:M3] forall(k string, in(s.call, k) ==> slotOpen(lookup(s.call, k)) && lookup(s.call, k).id == k)
 //@   invariant[C09:M3-distinct] forall(k1 string, k2 string, in(s.call, k1) && in(s.call, k2) && k1 != k2 ==> lookup(s.call, k1).ch != lookup(s.call, k2).ch)
 //@   invariant[C08:Q] qlen(fieldaddr(s, inq)) >= 0
@@ -260,7 +263,7 @@ package jrpc2
 // reservation, cancels outstanding callbacks, closes the wake-up channel,
 // records the FIRST cause.
 //@ func (*Server).stopLocked
-//@   requires wfServer(s) && held(s.mu) && Server_mu_inv(s)
+//@   requires wfServer(s) && held(s.mu) && Server_mu_inv(s) && err != nil
 //@   modifies s.err, s.ch, map(s.used), fired, qlen(fieldaddr(s, inq)), chCloses(s.ch)
 //@   ensures[C08:stopped] s.ch == nil
 //@   ensures[C08:first-cause] old(s.ch) != nil ==> s.err == err
@@ -315,3 +318,169 @@ package jrpc2
 //@   ensures[C09:inv] Server_mu_inv(s)
 //@   loop 1 invariant Server_mu_inv(s) && len(keep) <= rangeindex + 1
 //@   loop 1 invariant forall(i int, 0 <= i && i < len(keep) ==> keep[i] != nil && (s.allowP ==> reqShaped(keep[i])))
+
+// ---------------------------------------------------------------------------
+// Server life cycle (C08, C10)
+// ---------------------------------------------------------------------------
+
+// s.work is written only by Start, under the lock and while no worker exists
+// (s.ch == nil); workers read it without the lock. It is therefore not a
+// guarded field; M1 ties its state to s.ch.
+
+//@ func NewServer
+//@   maypanic
+//@   fresh result
+//@   ensures[C08:wellformed] wfServer(result) && result.ch == nil && result.err == nil
+//@   ensures[C06:capacity] semCap(result.sem) >= 1 && (opts != nil && opts.Concurrency >= 1 ==> semCap(result.sem) == opts.Concurrency)
+//@   ensures forall(k string, !in(result.used, k) && !in(result.call, k))
+
+// Start: panics (documented) if the server is running; otherwise installs the
+// channel, resets the error and the wake-up channel, and starts exactly one
+// reader and one dispatcher, each owing one Done to s.wg.
+//@ func (*Server).Start
+//@   maypanic
+//@   requires wfServer(s) && c != nil && !held(s.mu)
+//@   modifies monitor(Server, s), s.work, s.start, held(s.mu), wgDebt(fieldaddr(s, wg))
+//@   ensures[C08:started] result == s && !held(s.mu)
+//@   ensures[C10:debts-handed-over] wgDebt(fieldaddr(s, wg)) == old(wgDebt(fieldaddr(s, wg)))
+
+//@ func (*Server).Start$1
+//@   root
+//@   transfer wgDebt(fieldaddr(s, wg)), 1
+//@   captures wfServer(s) && c != nil
+//@   modifies monitor(Server, s), fired, chCloses, chSends, chRecvs, held, wgDebt(fieldaddr(s, wg))
+//@   requires !held(s.mu)
+//@   ensures[C08:done-paid] wgDebt(fieldaddr(s, wg)) == 0
+
+//@ func (*Server).Start$2
+//@   root
+//@   transfer wgDebt(fieldaddr(s, wg)), 1
+//@   captures wfServer(s) && s.work != nil
+//@   modifies monitor(Server, s), fired, chCloses, chSends, held, wgDebt(fieldaddr(s, wg)), semHeld, handlerRuns, assignCalls
+//@   requires !held(s.mu)
+//@   ensures[C08:done-paid] wgDebt(fieldaddr(s, wg)) == 0
+
+// serve: the one dispatcher loop. Each dequeued batch is handed to exactly one
+// goroutine, which owes one Done; the loop ends only when nextRequest reports
+// that the server has stopped and the queue is drained.
+//@ func (*Server).serve
+//@   requires wfServer(s) && !held(s.mu) && s.work != nil
+//@   modifies monitor(Server, s), fired, chCloses, chSends, held, wgDebt(fieldaddr(s, wg)), assignCalls
+//@   ensures[C08:debts-handed-over] wgDebt(fieldaddr(s, wg)) == old(wgDebt(fieldaddr(s, wg))) && !held(s.mu)
+//@   loop 1 invariant !held(s.mu) && wgDebt(fieldaddr(s, wg)) == old(wgDebt(fieldaddr(s, wg)))
+
+//@ func (*Server).serve$1
+//@   root
+//@   transfer wgDebt(fieldaddr(s, wg)), 1
+//@   captures wfServer(s) && next != nil
+//@   modifies wgDebt(fieldaddr(s, wg))
+//@   ensures[C08:done-paid] wgDebt(fieldaddr(s, wg)) == 0
+
+// A dispatcher returned by nextRequest (role of `next` in serve$1).
+//@ role freevar (*Server).serve$1.next
+
+// nextRequest: waits (lock released) while the server runs and the queue is
+// empty; reports the stop cause only when stopped AND drained, so retained
+// notifications are still dispatched; otherwise pops exactly one batch.
+//@ func (*Server).nextRequest
+//@   requires wfServer(s) && !held(s.mu) && s.work != nil
+//@   modifies monitor(Server, s), held(s.mu), fired, assignCalls
+//@   ensures[C08:unlocked] !held(s.mu)
+//@   ensures[C08:dispatcher-or-cause] (result1 == nil) == (result0 != nil)
+//@   loop 1 invariant held(s.mu) && Server_mu_inv(s)
+
+// Stop / WaitStatus.
+//@ func (*Server).WaitStatus
+//@   nolockset reads s.err and s.inq after wg.Wait(): every writer has finished (quiescence; DESIGN 5.1)
+//@   maypanic
+//@   requires wfServer(s)
+//@   ensures[C08:one-flag] !(result.Stopped && result.Closed)
+//@   ensures[C08:stopped] result.Stopped ==> result.Err == nil && s.err == errServerStopped
+//@   ensures[C08:closed] result.Closed ==> result.Err == nil && (s.err == io.EOF || isErrClosing(s.err))
+//@   ensures[C08:failed] !result.Stopped && !result.Closed ==> result.Err == s.err
+
+//@ spec isErrClosing(Iface) Bool
+
+// ---------------------------------------------------------------------------
+// Dispatch: validation, reservation, barrier, delivery (C01 C02 C03 C07)
+// ---------------------------------------------------------------------------
+
+// resvTask(id): ghost - the task whose setContext call made the reservation
+// currently filed under id (only meaningful while in(s.used, id)).
+// taskOK(t): shape invariant of a task built by checkAndAssignLocked.
+//@ pure taskOK(t *task) Bool = t != nil && t.hreq != nil && (t.err == nil ==> t.m != nil && t.ctx != nil && t.hreq.method != "")
+
+// checkAndAssignLocked: one task per member, in order, carrying the member's
+// id / method / params / batch flag. A handler is assigned only to a member
+// that parsed cleanly, is no duplicate and names a non-empty known method; every
+// other member carries its error and NO handler. A reservation made by this
+// batch survives only for a member that got a handler (it will run, and
+// deliver will release it); reservations of other batches are untouched.
+//@ func (*Server).checkAndAssignLocked
+//@   requires wfServer(s) && held(s.mu) && Server_mu_inv(s) && forall(i int, 0 <= i && i < len(next) ==> next[i] != nil)
+//@   modifies map(s.used), fired, assignCalls
+//@   ensures[C01:one-task-per-member] len(result) == len(next)
+//@   ensures[C01:task-shape] forall(i int, 0 <= i && i < len(result) ==> taskOK(result[i]) && result[i].batch == next[i].batch && result[i].hreq.method == next[i].M && result[i].hreq.params == next[i].P)
+//@   ensures[C02:invalid-never-runs] forall(i int, 0 <= i && i < len(result) ==> (next[i].err != nil ==> result[i].err != nil && result[i].m == nil))
+//@   ensures[C02:empty-method-never-runs] forall(i int, 0 <= i && i < len(result) ==> (next[i].M == "" ==> result[i].err != nil && result[i].m == nil))
+//@   ensures[C07:others-undisturbed] forall(k string, old(in(s.used, k)) ==> in(s.used, k) && lookup(s.used, k) == old(lookup(s.used, k)))
+//@   ensures[C07:nothing-fired-of-others] forall(f Int, (exists(k string, old(in(s.used, k)) && old(lookup(s.used, k)) == f)) ==> fired(f) == old(fired(f)))
+//@   ensures[C07:reserved-only-for-runnable] forall(k string, in(s.used, k) && !old(in(s.used, k)) ==> exists(j int, 0 <= j && j < len(result) && result[j].m != nil && result[j].err == nil && str(result[j].hreq.id) == k))
+//@   ensures[C07:inv] Server_mu_inv(s)
+//@   loop 1 invariant len(ts) == rangeindex + 1 && len(ids) == len(ts)
+//@   loop 1 invariant forall(j int, 0 <= j && j < len(ts) ==> ids[j] == str(ts[j].hreq.id))
+//@   loop 1 invariant forall(j int, 0 <= j && j < len(ts) ==> ts[j] != nil && isnew(ts[j]) && allocated(ts[j]) && ts[j].hreq != nil && allocated(ts[j].hreq) && isnew(ts[j].hreq) && ts[j].m == nil)
+//@   loop 1 invariant forall(j int, 0 <= j && j < len(ts) ==> ts[j].batch == next[j].batch && ts[j].hreq.method == next[j].M && ts[j].hreq.params == next[j].P)
+//@   loop 1 invariant forall(j int, 0 <= j && j < len(ts) ==> (next[j].err != nil ==> ts[j].err != nil))
+//@   loop 1 invariant forall(k string, in(dup, k) ==> lookup(dup, k) != nil && isnew(lookup(dup, k)) && allocated(lookup(dup, k)))
+//@   loop 1 invariant forall(j1 int, j2 int, 0 <= j1 && j1 < j2 && j2 < len(ts) ==> ts[j1] != ts[j2])
+//@   loop 1 invariant forall(j int, 0 <= j && j < len(ts) && ts[j].err == nil && ids[j] != "" ==> in(dup, ids[j]) && lookup(dup, ids[j]) == ts[j] && !in(s.used, ids[j]))
+//@   loop 2 invariant Server_mu_inv(s) && len(ts) == len(next) && len(ids) == len(ts)
+//@   loop 2 invariant forall(j int, 0 <= j && j < len(ts) ==> ts[j] != nil && isnew(ts[j]) && allocated(ts[j]) && ts[j].hreq != nil && allocated(ts[j].hreq))
+//@   loop 2 invariant forall(j int, 0 <= j && j < len(ts) ==> ts[j].batch == next[j].batch && ts[j].hreq.method == next[j].M && ts[j].hreq.params == next[j].P)
+//@   loop 2 invariant forall(j int, 0 <= j && j < len(ts) ==> (next[j].err != nil ==> ts[j].err != nil))
+//@   loop 2 invariant forall(j int, 0 <= j && j <= rangeindex ==> taskOK(ts[j]) && (next[j].err != nil || next[j].M == "" ==> ts[j].m == nil))
+//@   loop 2 invariant forall(j int, rangeindex < j && j < len(ts) ==> ts[j].m == nil)
+//@   loop 2 invariant forall(j int, 0 <= j && j < len(ts) ==> ids[j] == str(ts[j].hreq.id))
+//@   loop 2 invariant forall(k string, in(s.used, k) && !old(in(s.used, k)) ==> exists(j int, 0 <= j && j <= rangeindex && ts[j].m != nil && ts[j].err == nil && ids[j] == k))
+//@   loop 2 invariant forall(j1 int, j2 int, 0 <= j1 && j1 < j2 && j2 < len(ts) ==> ts[j1] != ts[j2])
+//@   loop 2 invariant forall(j int, rangeindex < j && j < len(ts) && ts[j].err == nil && ids[j] != "" ==> !in(s.used, ids[j]))
+//@   loop 2 invariant forall(j1 int, j2 int, 0 <= j1 && j1 < j2 && j2 < len(ts) && ts[j1].err == nil && ts[j2].err == nil && ids[j1] != "" ==> ids[j1] != ids[j2])
+//@   loop 2 invariant forall(k string, old(in(s.used, k)) ==> in(s.used, k) && lookup(s.used, k) == old(lookup(s.used, k)))
+//@   loop 2 invariant forall(f Int, (exists(k string, old(in(s.used, k)) && old(lookup(s.used, k)) == f)) ==> fired(f) == old(fired(f)))
+
+// waitForBarrier: with the lock released, first wait for every notification
+// issued so far, only then add this batch's notifications; lock again.
+//@ func (*Server).waitForBarrier
+//@   requires wfServer(s) && held(s.mu) && Server_mu_inv(s) && n >= 0
+//@   modifies monitor(Server, s), wgDebt(fieldaddr(s, nbar))
+//@   at call.Add#1 assert[C03:wait-before-add] called("call.Wait#1")
+//@   ensures[C03:relocked] held(s.mu) && Server_mu_inv(s)
+//@   ensures[C03:debt] wgDebt(fieldaddr(s, nbar)) == old(wgDebt(fieldaddr(s, nbar))) + n
+
+//@ func (tasks).numToDo
+//@   requires forall(i int, 0 <= i && i < len(ts) ==> taskOK(ts[i]))
+//@   ensures[C03:counts] 0 <= notes && notes <= todo && todo <= len(ts)
+//@   loop 1 invariant 0 <= notes && notes <= todo && todo <= rangeindex + 1
+
+// deliver: nothing to report => nothing is sent and the lock is not even
+// taken. Otherwise, under the lock: every id this batch answers for a task
+// that ran is released, then at most one message is sent (none if the server
+// has no channel any more).
+//@ func (*Server).deliver
+//@   requires wfServer(s) && !held(s.mu) && forall(i int, 0 <= i && i < len(rsps) ==> rsps[i] != nil)
+//@   modifies monitor(Server, s), fired, chSends(ch), held(s.mu)
+//@   at call.encode#1 assert[C10:send-under-lock] held(s.mu)
+//@   ensures[C01:nothing-to-report] len(rsps) == 0 ==> chSends(ch) == old(chSends(ch))
+//@   ensures[C01:at-most-one-message] chSends(ch) == old(chSends(ch)) || chSends(ch) == old(chSends(ch)) + 1
+//@   ensures[C08:unlocked] !held(s.mu)
+//@   loop 1 invariant held(s.mu) && Server_mu_inv(s)
+
+// CancelRequest: fires at most the cancel function filed under id and changes
+// no reservation (the call is in flight until its reply is delivered).
+//@ func (*Server).CancelRequest
+//@   requires wfServer(s) && !held(s.mu)
+//@   modifies monitor(Server, s), fired, held(s.mu)
+//@   ensures[C08:unlocked] !held(s.mu)
+//@   at defer.Unlock#1 assert[C07:reservations-kept] forall(k string, in(s.used, k) == atlock(in(s.used, k)) && lookup(s.used, k) == atlock(lookup(s.used, k)))
+//@   at defer.Unlock#1 assert[C07:fires-only-target] forall(f Int, !(atlock(in(s.used, id)) && f == atlock(lookup(s.used, id))) ==> fired(f) == atlock(fired(f)))
